@@ -154,16 +154,16 @@ func buildLines(c seCase) ([]seLine, []byte) {
 			case "multi":
 				want = c.BufSize*2 + c.BufSize/2 + 3
 			}
-			for len(content) < want {
-				content += "x"
+			if len(content) < want {
+				content += strings.Repeat("x", want-len(content))
 			}
 		} else if len(content)+termLen > c.BufSize {
 			// cannot fit: the generator should have chosen a bigger buffer; be honest about the class
 			t.Fit = "long"
 		} else if t.Variant%7 == 3 && t.Kind == "plain" {
 			// the longest line that still fits
-			for len(content)+termLen < c.BufSize {
-				content += "y"
+			if len(content)+termLen < c.BufSize {
+				content += strings.Repeat("y", c.BufSize-termLen-len(content))
 			}
 		}
 		last := i == len(c.Tokens)-1
